@@ -150,6 +150,22 @@ func (x *c04) one(typ byte, input []byte, origin string) {
 			return
 		}
 	}
+	// a packet that is well-formed but for its remaining length being written in more bytes than
+	// necessary: the decoder may refuse it; if it takes it, it is that packet
+	if !refOK && rerr == nil && ref.Type == typ && ref.NonMinimalLength {
+		cp := *ref
+		cp.NonMinimalLength = false
+		if refcodec.WellFormed(&cp) && mustAccept(&cp) {
+			if n != rn {
+				x.fail(typ, origin, fmt.Sprintf("Decode accepts a packet with a non-minimal length field but consumes %d of its %d bytes", n, rn), desc)
+				return
+			}
+			if d := sameFields(ref, fromLib(m)); d != "" {
+				x.fail(typ, origin, "wrong field values for an accepted packet with a non-minimal length field: "+d, desc)
+				return
+			}
+		}
+	}
 	if refOK {
 		if n != rn {
 			x.fail(typ, origin, fmt.Sprintf("Decode does not consume a well-formed packet: %d of %d bytes", n, rn), desc)
@@ -196,7 +212,7 @@ func C04(c *core.Ctx) {
 	e := &enumCtx{c: c, seen: map[string]bool{}}
 	x := &c04{enumCtx: e, bufs: map[int][]byte{}}
 	th := c.Thorough()
-	c.Rep.Bound = "well-formed PUBLISH packets of 2 MiB (four-byte length field), whole and cut short; all byte strings up to 6 (quick) / 7 (thorough) bytes over an 8-value alphabet x 30 first bytes x 14 decoders; every truncation, every frame ending early (remaining length adjusted), every wrong remaining length and every single-byte replacement (9 values per position) of a valid corpus; thorough: every pair of replacements within the first 24 bytes"
+	c.Rep.Bound = "well-formed PUBLISH packets of 2 MiB (four-byte length field), whole and cut short; all byte strings up to 6 (quick) / 7 (thorough) bytes over an 8-value alphabet x 30 first bytes x 14 decoders; every truncation, every frame ending early (remaining length adjusted), every wrong remaining length, every non-minimal length field (whole, truncated, with trailing bytes) and every single-byte replacement (9 values per position) of a valid corpus; thorough: every pair of replacements within the first 24 bytes"
 	c.Rep.Rule = "ENUM with deviation bound (0, 1, 2 corrupted bytes); every input is presented in a slice with cap == len; oracle: no panic, 0 <= n <= len, fields inside input[:n], and agreement with the reference codec on every well-formed packet; distinct non-trivial = distinct (decoder, shape) accepted as well-formed plus distinct (decoder, length) accepted though malformed"
 	if c.Replay != nil {
 		fmt.Printf("replay of an input-enumeration finding: class %q\n  %s\n  input: %s\n", c.Replay.Scenario, c.Replay.Message, string(c.Replay.Input))
@@ -296,6 +312,22 @@ func C04(c *core.Ctx) {
 				adj := append(append([]byte{wire[0]}, refcodec.VarLen(k)...), body...)
 				x.one(p.Type, adj, "wrong-remaining-length")
 			}
+		}
+		// the remaining length written in more bytes than necessary (the decoders take these),
+		// whole, cut short and followed by other bytes
+		for pad := 1; pad <= 3; pad++ {
+			q := *p
+			q.PadLength = pad
+			pw := refcodec.Encode(&q)
+			if len(pw) != len(wire)+pad {
+				break // the length field has its four bytes
+			}
+			x.one(p.Type, pw, "padded-length")
+			x.one(p.Type, append(append([]byte{}, pw...), 0xff, 0x00), "padded-length+trailing-bytes")
+			for cut := 1; cut < len(pw) && cut < 64; cut++ {
+				x.one(p.Type, pw[:cut], "padded-length-truncated")
+			}
+			x.one(p.Type, pw[:len(pw)-1], "padded-length-truncated")
 		}
 		// trailing bytes after a whole packet (the ring hands over exact frames,
 		// but the API takes any slice): the decoder must stop at the packet's end
